@@ -4,6 +4,8 @@ import QR.Proofs.Styled2
 import QR.Proofs.Pinned
 import QR.Proofs.SourceTieT4
 import QR.Proofs.SourceTieT5
+import QR.Proofs.SourceTieD5
+import QR.Proofs.SourceTieD5b
 /-
 C14 - styled images: colour logic on exact pixels and embedded-image geometry.  Antialiased drawers, gradients' float
 rounding and Pillow's paste/resize are validated on real Pillow by the check (partial, see DESIGN.md 6/C14).
@@ -224,6 +226,193 @@ theorem C14_source_logoGeometry_outside_range :
   QR.SourceTieT.logoGeometry_outside_range
 
 end SourceTieT2b
+
+section SourceTieD5
+open QR.Gen.Code QR.SourceTieD5
+
+/-- `moduledrawers/pil.py`, all six Pillow drawers (`initialize`, `setup_corners` / `setup_edges`, `drawrect`, translated from
+    the AST) = the closed form `SourceTieD5.paints` (the list of painted closed pixel rectangles of one module); the Model has
+    no stamp model, the closed form is its Model-side definition.  `0 ≤ bs`: `int(box_size / 2)` truncates, `bs / 2` floors. -/
+theorem C14_source_drawerPaints_src (d : Drawer) (bs : Int) (hbs : 0 ≤ bs) (ratio : Rat) (x y : Int) (a : dr_Active) :
+    sourcePaints d bs ratio (moduleBox x y bs) a = paints d bs ratio x y a :=
+  QR.SourceTieD5.paints_src d bs hbs ratio x y a
+
+/-- `int()` in the translated drawers (`dr_pyInt`), the closed form's `truncQ` and the Model's `truncInt` are one function -/
+theorem C14_source_drawerTrunc_src (q : Rat) : dr_pyInt q = truncQ q ∧ truncQ q = QR.Model.truncInt q := ⟨rfl, rfl⟩
+
+/-- **inside the box**: whatever the translated `drawrect` of any of the six Pillow drawers paints for a module (after the
+    translated `initialize` / `setup_*`) lies inside that module's pixel box `((x, y), (x + bs - 1, y + bs - 1))` - for every
+    box size ≥ 1, every ratio in [0, 1], every position, every neighbourhood.  So a dark module never paints a pixel of a light
+    neighbour or of the quiet zone.  (For ratio > 1 it is false: `C14_source_drawer_ratio_above_one`.) -/
+theorem C14_drawer_inside_box (d : Drawer) (bs : Int) (hbs : 1 ≤ bs) (ratio : Rat) (h0 : 0 ≤ ratio) (h1 : ratio ≤ 1)
+    (x y : Int) (a : dr_Active) :
+    ∀ p ∈ sourcePaints d bs ratio (moduleBox x y bs) a, p.2.inside (moduleBox x y bs) :=
+  QR.SourceTieD5.drawer_inside_box d bs hbs ratio h0 h1 x y a
+
+/-- a light module: the translated `drawrect` of every Pillow drawer makes no drawing call at all -/
+theorem C14_drawer_light_nothing (d : Drawer) (bs : Int) (hbs : 0 ≤ bs) (ratio : Rat) (x y : Int) (a : dr_Active) (h : a.me = false) :
+    sourcePaints d bs ratio (moduleBox x y bs) a = [] :=
+  QR.SourceTieD5.drawer_light_nothing d bs hbs ratio x y a h
+
+/-- `SquareModuleDrawer.drawrect` (translated): a dark module is one `rectangle` call, exactly its pixel box, paint colour -/
+theorem C14_drawer_square_full (bs : Int) (hbs : 0 ≤ bs) (ratio : Rat) (x y : Int) (a : dr_Active) (h : a.me = true) :
+    sourcePaints .square bs ratio (moduleBox x y bs) a
+      = [("self.img.paint_color", RectQ.ofInt (moduleBox x y bs).1.1 (moduleBox x y bs).1.2 (moduleBox x y bs).2.1 (moduleBox x y bs).2.2)] :=
+  QR.SourceTieD5.drawer_square_full bs hbs ratio x y a h
+
+/-- `RoundedModuleDrawer.drawrect` (translated): the four corner stamps tile the `2c × 2c` square at the box origin
+    (`c = int(box_size / 2)`): a pixel is covered iff it is in that square, and never by two different stamps -/
+theorem C14_drawer_rounded_tiles (bs : Int) (hbs : 0 ≤ bs) (ratio : Rat) (x y : Int) (a : dr_Active) (h : a.me = true)
+    (px py : Int) :
+    ((∃ p ∈ sourcePaints .rounded bs ratio (moduleBox x y bs) a, p.2.covers px py)
+        ↔ (x ≤ px ∧ px < x + 2 * (bs / 2) ∧ y ≤ py ∧ py < y + 2 * (bs / 2))) ∧
+    ∀ p ∈ sourcePaints .rounded bs ratio (moduleBox x y bs) a, ∀ q ∈ sourcePaints .rounded bs ratio (moduleBox x y bs) a,
+        p.2.covers px py → q.2.covers px py → p.2 = q.2 :=
+  QR.SourceTieD5.drawer_rounded_tiles bs hbs ratio x y a h px py
+
+/-- `RoundedModuleDrawer` (translated), existing behaviour stated exactly: inside a dark module's box a pixel is painted iff
+    the box size is even or the pixel is not in the last column / row (odd sizes leave a one-pixel background seam) -/
+theorem C14_drawer_rounded_seam (bs : Int) (hbs : 1 ≤ bs) (ratio : Rat) (x y : Int) (a : dr_Active) (h : a.me = true) (px py : Int)
+    (hx : x ≤ px ∧ px ≤ x + bs - 1) (hy : y ≤ py ∧ py ≤ y + bs - 1) :
+    (∃ p ∈ sourcePaints .rounded bs ratio (moduleBox x y bs) a, p.2.covers px py)
+      ↔ (bs % 2 = 0 ∨ (px ≠ x + bs - 1 ∧ py ≠ y + bs - 1)) :=
+  QR.SourceTieD5.drawer_rounded_seam bs hbs ratio x y a h px py hx hy
+
+/-- `GappedSquareModuleDrawer` (translated `initialize` + `drawrect`): the shrunken box is a proper rectangle iff
+    `size_ratio · box_size ≥ 1` (below that Pillow receives an inverted box) -/
+theorem C14_drawer_gapped_proper (bs : Int) (hbs : 0 ≤ bs) (ratio : Rat) (x y : Int) (a : dr_Active) (h : a.me = true) :
+    ∀ p ∈ sourcePaints .gapped bs ratio (moduleBox x y bs) a, (p.2.x0 ≤ p.2.x1 ↔ 1 ≤ ratio * (bs : Rat)) :=
+  QR.SourceTieD5.drawer_gapped_proper bs hbs ratio x y a h
+
+/-- the hypothesis `ratio ≤ 1` of `C14_drawer_inside_box` cannot be dropped (both sides evaluated): `VerticalBarsDrawer(1.5)`
+    pastes columns -2 .. 12 for a module occupying 0 .. 9; `GappedSquareModuleDrawer(2)` draws (-5, -5, 14, 14) -/
+theorem C14_source_drawer_ratio_above_one :
+    sourcePaints .vbars 10 (3 / 2) (moduleBox 0 0 10) allDark
+      = [("self.SQUARE", RectQ.ofInt (-2) 0 12 4), ("self.SQUARE", RectQ.ofInt (-2) 5 12 9)] ∧
+    sourcePaints .gapped 10 2 (moduleBox 0 0 10) allDark = [("self.img.paint_color", ⟨-5, -5, 14, 14⟩)] :=
+  QR.SourceTieD5.ratio_above_one_paints_outside
+
+/-- the constructors of the four parametrised Pillow drawers (translated): the attribute is the argument; defaults 0.8, 1,
+    0.8, 0.8 (exact float values), all inside (0, 1] -/
+theorem C14_source_drawerCtor_src (r : Rat) :
+    dr_gapped_init (some r) = r ∧ dr_rounded_init (some r) = r ∧ dr_vbars_init (some r) = r ∧ dr_hbars_init (some r) = r ∧
+    dr_gapped_init none = (3602879701896397 : Rat) / 4503599627370496 ∧ dr_rounded_init none = 1 ∧
+    dr_vbars_init none = dr_gapped_init none ∧ dr_hbars_init none = dr_gapped_init none ∧
+    (0 < dr_gapped_init none ∧ dr_gapped_init none ≤ 1) ∧
+    [dr_gapped_init_attr, dr_rounded_init_attr, dr_vbars_init_attr, dr_hbars_init_attr]
+      = ["self.size_ratio", "self.radius_ratio", "self.horizontal_shrink", "self.vertical_shrink"] :=
+  QR.SourceTieD5.ctor_src r
+
+/-- `StyledPilImage.init_new_image` / `process` / `save` (translated statement skeletons): colour mask initialised before the
+    drawers, mask applied before the logo, logo only if `self.embeded_image`; save format = argument, else `kwargs["kind"]`,
+    else `"PNG"` -/
+theorem C14_source_styledSkeleton_src (fmt kw : Option String) :
+    dr_spil_init_new_image = [("self.color_mask.initialize", ["self", "self._img"]), ("super().init_new_image", [])] ∧
+    dr_base_init_new_image = ["self.module_drawer.initialize(img=self)", "self.eye_drawer.initialize(img=self)",
+      "return super().init_new_image()"] ∧
+    dr_spil_process true = ["self.color_mask.apply_mask(self._img)", "self.draw_embeded_image()"] ∧
+    dr_spil_process false = ["self.color_mask.apply_mask(self._img)"] ∧ dr_spil_process_test = "self.embeded_image" ∧
+    dr_spil_save_format fmt kw dr_spil_kind = (fmt.getD (kw.getD "PNG")) ∧
+    dr_spil_save_keys = ["kind", "kind", "kind"] ∧ dr_spil_save_default = "self.kind" ∧
+    dr_spil_save_call = "self._img.save(stream, format=format, **kwargs)" ∧
+    dr_spil_needs_processing = true ∧ dr_spil_default_drawer = "SquareModuleDrawer" :=
+  QR.SourceTieD5.styled_skeleton_src fmt kw
+
+/-- `CircleModuleDrawer.initialize`, `RoundedModuleDrawer.setup_corners`, `VerticalBarsDrawer/HorizontalBarsDrawer.setup_edges`
+    (translated): every stamp is drawn `ANTIALIASING_FACTOR = 4` times larger and resized to the size `drawrect` pastes; stamp
+    sizes and ellipse / rectangle coordinates equal these closed forms (the stamp sizes are what `paints` uses) -/
+theorem C14_source_drawerSetup_src (bs c : Int) (r : Rat) :
+    dr_ANTIALIASING_FACTOR = 4 ∧
+    dr_circle_initialize_stamps bs
+      = [("self.circle", (bs * 4, bs * 4), "Image.new(self.img.mode, self.img.color_mask.back_color)"),
+         ("self.circle", (bs, bs), "self.circle.resize(Image.Resampling.LANCZOS)")] ∧
+    dr_circle_initialize_draws bs = [("self.circle.ellipse", [0, 0, ((bs * 4 : Int) : Rat), ((bs * 4 : Int) : Rat)], "self.img.paint_color")] ∧
+    dr_rounded_setup_corners_stamps c r
+      = [("self.SQUARE", (c, c), "Image.new(mode, front_color)"), ("base", (c * 4, c * 4), "Image.new(mode, back_color)"),
+         ("self.NW_ROUND", (c, c), "base.resize(Image.Resampling.LANCZOS)"),
+         ("self.SW_ROUND", (c, c), "self.NW_ROUND.transpose(Image.Transpose.FLIP_TOP_BOTTOM)"),
+         ("self.SE_ROUND", (c, c), "self.NW_ROUND.transpose(Image.Transpose.ROTATE_180)"),
+         ("self.NE_ROUND", (c, c), "self.NW_ROUND.transpose(Image.Transpose.FLIP_LEFT_RIGHT)")] ∧
+    dr_rounded_setup_corners_draws c r
+      = [("base.ellipse", [0, 0, r * ((c * 4 : Int) : Rat) * 2, r * ((c * 4 : Int) : Rat) * 2], "front_color"),
+         ("base.rectangle", [r * ((c * 4 : Int) : Rat), 0, ((c * 4 : Int) : Rat), ((c * 4 : Int) : Rat)], "front_color"),
+         ("base.rectangle", [0, r * ((c * 4 : Int) : Rat), ((c * 4 : Int) : Rat), ((c * 4 : Int) : Rat)], "front_color")] ∧
+    dr_vbars_setup_edges_stamps c r
+      = [("self.SQUARE", (truncQ (((c * 2 : Int) : Rat) * r), c), "Image.new(mode, front_color)"),
+         ("base", (c * 2 * 4, c * 4), "Image.new(mode, back_color)"),
+         ("self.ROUND_TOP", (truncQ (((c * 2 : Int) : Rat) * r), c), "base.resize(Image.Resampling.LANCZOS)"),
+         ("self.ROUND_BOTTOM", (truncQ (((c * 2 : Int) : Rat) * r), c), "self.ROUND_TOP.transpose(Image.Transpose.FLIP_TOP_BOTTOM)")] ∧
+    dr_vbars_setup_edges_draws c r
+      = [("base.ellipse", [0, 0, ((c * 2 * 4 : Int) : Rat), ((c * 4 * 2 : Int) : Rat)], "front_color")] ∧
+    dr_hbars_setup_edges_stamps c r
+      = [("self.SQUARE", (c, truncQ (((c * 2 : Int) : Rat) * r)), "Image.new(mode, front_color)"),
+         ("base", (c * 4, c * 2 * 4), "Image.new(mode, back_color)"),
+         ("self.ROUND_LEFT", (c, truncQ (((c * 2 : Int) : Rat) * r)), "base.resize(Image.Resampling.LANCZOS)"),
+         ("self.ROUND_RIGHT", (c, truncQ (((c * 2 : Int) : Rat) * r)), "self.ROUND_LEFT.transpose(Image.Transpose.FLIP_LEFT_RIGHT)")] ∧
+    dr_hbars_setup_edges_draws c r
+      = [("base.ellipse", [0, 0, ((c * 4 * 2 : Int) : Rat), ((c * 2 * 4 : Int) : Rat)], "front_color")] :=
+  QR.SourceTieD5.setup_geometry_src bs c r
+
+/-- statement order of `initialize` / `setup_*` of the six Pillow drawers, their `needs_neighbors`, and the fields of
+    `ActiveWithNeighbors` (translated as literals): `super().initialize` first, geometry attributes before `setup_*` -/
+theorem C14_source_drawerSkeleton_src :
+    dr_Active_fields = ["NW", "N", "NE", "W", "me", "E", "SW", "S", "SE"] ∧
+    dr_base_needs_neighbors = false ∧ dr_base_initialize = ["self.img = img"] ∧
+    [dr_square_needs_neighbors, dr_gapped_needs_neighbors, dr_circle_needs_neighbors, dr_rounded_needs_neighbors,
+      dr_vbars_needs_neighbors, dr_hbars_needs_neighbors] = [none, none, none, some true, some true, some true] ∧
+    dr_square_initialize_order = ["call:super().initialize(*args, **kwargs)", "handle:self.imgDraw"] ∧
+    dr_gapped_initialize_order = ["call:super().initialize(*args, **kwargs)", "handle:self.imgDraw", "real:self.delta"] ∧
+    dr_circle_initialize_order = ["call:super().initialize(*args, **kwargs)", "int:box_size", "int:fake_size", "image:self.circle",
+      "draw:self.circle.ellipse", "image:self.circle"] ∧
+    dr_rounded_initialize_order = ["call:super().initialize(*args, **kwargs)", "int:self.corner_width", "call:self.setup_corners()"] ∧
+    dr_vbars_initialize_order = ["call:super().initialize(*args, **kwargs)", "int:self.half_height", "int:self.delta", "call:self.setup_edges()"] ∧
+    dr_hbars_initialize_order = ["call:super().initialize(*args, **kwargs)", "int:self.half_width", "int:self.delta", "call:self.setup_edges()"] ∧
+    dr_rounded_setup_corners_order = ["alias:mode", "alias:back_color", "alias:front_color", "image:self.SQUARE", "int:fake_width",
+      "real:radius", "real:diameter", "image:base", "handle:base_draw", "draw:base.ellipse", "draw:base.rectangle",
+      "draw:base.rectangle", "image:self.NW_ROUND", "image:self.SW_ROUND", "image:self.SE_ROUND", "image:self.NE_ROUND"] ∧
+    dr_vbars_setup_edges_order = ["alias:mode", "alias:back_color", "alias:front_color", "int:height", "int:width", "int:shrunken_width",
+      "image:self.SQUARE", "int:fake_width", "int:fake_height", "image:base", "handle:base_draw", "draw:base.ellipse",
+      "image:self.ROUND_TOP", "image:self.ROUND_BOTTOM"] ∧
+    dr_hbars_setup_edges_order = ["alias:mode", "alias:back_color", "alias:front_color", "int:width", "int:height", "int:shrunken_height",
+      "image:self.SQUARE", "int:fake_width", "int:fake_height", "image:base", "handle:base_draw", "draw:base.ellipse",
+      "image:self.ROUND_LEFT", "image:self.ROUND_RIGHT"] ∧
+    dr_rounded_setup_corners_other = ["mode = self.img.mode", "back_color = self.img.color_mask.back_color",
+      "front_color = self.img.paint_color", "base_draw = ImageDraw.Draw(base)"] ∧
+    dr_vbars_setup_edges_other = dr_rounded_setup_corners_other ∧ dr_hbars_setup_edges_other = dr_rounded_setup_corners_other ∧
+    dr_square_initialize_other = ["super().initialize(*args, **kwargs)", "self.imgDraw = ImageDraw.Draw(self.img._img)"] ∧
+    dr_gapped_initialize_other = dr_square_initialize_other ∧
+    dr_pil_classes = ["StyledPilQRModuleDrawer", "SquareModuleDrawer", "GappedSquareModuleDrawer", "CircleModuleDrawer",
+      "RoundedModuleDrawer", "VerticalBarsDrawer", "HorizontalBarsDrawer"] :=
+  QR.SourceTieD5.skeleton_literals
+
+/-- `colormasks.py` constructors and `initialize` (translated as literals): default colours, `back_color` stored before
+    `has_transparency`, `initialize` copies the image's paint colour (the colour `applyMaskPixel` compares with) -/
+theorem C14_source_colormaskCtor_src :
+    dr_cm_classes = ["QRColorMask", "SolidFillColorMask", "RadialGradiantColorMask", "SquareGradiantColorMask",
+      "HorizontalGradiantColorMask", "VerticalGradiantColorMask", "ImageColorMask"] ∧
+    dr_cm_initialize_QRColorMask = ["self.paint_color = styledPilImage.paint_color"] ∧
+    dr_cm_initialize_ImageColorMask = ["self.paint_color = styledPilImage.paint_color", "self.color_img = self.color_img.resize(image.size)"] ∧
+    dr_cm_init_defaults_SolidFillColorMask = [("back_color", some [255, 255, 255]), ("front_color", some [0, 0, 0])] ∧
+    dr_cm_init_defaults_RadialGradiantColorMask = [("back_color", some [255, 255, 255]), ("center_color", some [0, 0, 0]), ("edge_color", some [0, 0, 255])] ∧
+    dr_cm_init_defaults_SquareGradiantColorMask = [("back_color", some [255, 255, 255]), ("center_color", some [0, 0, 0]), ("edge_color", some [0, 0, 255])] ∧
+    dr_cm_init_defaults_HorizontalGradiantColorMask = [("back_color", some [255, 255, 255]), ("left_color", some [0, 0, 0]), ("right_color", some [0, 0, 255])] ∧
+    dr_cm_init_defaults_VerticalGradiantColorMask = [("back_color", some [255, 255, 255]), ("top_color", some [0, 0, 0]), ("bottom_color", some [0, 0, 255])] ∧
+    dr_cm_init_defaults_ImageColorMask = [("back_color", some [255, 255, 255]), ("color_mask_path", none), ("color_mask_image", none)] ∧
+    dr_cm_init_stores_SolidFillColorMask = [("self.back_color", "back_color"), ("self.front_color", "front_color"),
+      ("self.has_transparency", "len(self.back_color) == 4")] ∧
+    dr_cm_init_stores_RadialGradiantColorMask = [("self.back_color", "back_color"), ("self.center_color", "center_color"),
+      ("self.edge_color", "edge_color"), ("self.has_transparency", "len(self.back_color) == 4")] ∧
+    dr_cm_init_stores_SquareGradiantColorMask = dr_cm_init_stores_RadialGradiantColorMask ∧
+    dr_cm_init_stores_HorizontalGradiantColorMask = [("self.back_color", "back_color"), ("self.left_color", "left_color"),
+      ("self.right_color", "right_color"), ("self.has_transparency", "len(self.back_color) == 4")] ∧
+    dr_cm_init_stores_VerticalGradiantColorMask = [("self.back_color", "back_color"), ("self.top_color", "top_color"),
+      ("self.bottom_color", "bottom_color"), ("self.has_transparency", "len(self.back_color) == 4")] ∧
+    dr_cm_init_stores_ImageColorMask = [("self.back_color", "back_color"),
+      ("stmt", "if color_mask_image:\n    self.color_img = color_mask_image\nelse:\n    self.color_img = Image.open(color_mask_path)"),
+      ("self.has_transparency", "len(self.back_color) == 4")] :=
+  QR.SourceTieD5.colormask_ctor_src
+
+end SourceTieD5
 
 /-- the Python functions this property's model mirrors have, in /repo's current working tree, exactly the normalised
     ASTs the model was written and validated against (fingerprints regenerated by T1 on every run) -/
